@@ -171,7 +171,35 @@ def _multi(rng):
     return _multi_case(world, queries, order)
 
 
-def _multi_case(world, queries, order):
+def _shared_condition(rng):
+    """a compound condition object stored once and used in two queries: first alone (a conjunctive query, evaluated),
+    then as an operand of or_/and_/not_ in a second query built afterwards"""
+    nv = rng.choice([1, 1, 2])
+    vs = ["x", "y"][:nv]
+    kinds, objs, doms = G.gen_world(rng, vs, falsy=False)
+    G.EXT["index_ok"] = False
+    fl = G.EXT["flatten"]
+    G.EXT["flatten"] = False
+    try:
+        def conj():
+            parts = [G.gen_atom(rng, vs, kinds, 1, must=v) for v in vs] + [G.gen_atom(rng, vs, kinds, 1, must=rng.choice(vs))]
+            c = parts[0]
+            for p in parts[1:]:
+                c = ("and", c, p)
+            return c
+        c, d = conj(), conj()
+    finally:
+        G.EXT["flatten"] = fl
+    second = rng.choice([("or", c, d), ("or", d, c), ("and", c, d), ("not", c), ("or", c, ("not", d))])
+    sel = [("var", v) for v in rng.sample(vs, rng.randrange(1, nv + 1))]
+    queries = [{"sel": sel, "cond": c}, {"sel": sel, "cond": second}]
+    order = [(0, rng.choice([-1, -1, 1])), (1, -1)] + ([(0, -1)] if rng.random() < 0.3 else [])
+    case = _multi_case({"objs": objs, "doms": doms, "kinds": kinds}, queries, order, sharecond=True)
+    case.tags = ("multi", "shared-condition", second[0])
+    return case
+
+
+def _multi_case(world, queries, order, sharecond=False):
     q0 = {"sel": [], "cond": None, "objs": world["objs"], "doms": world["doms"]}
     full = G.sx_query({**q0, "sel": [("var", next(iter(world["doms"])))]})
     # reuse the printers of eqlgen for the world part
@@ -182,9 +210,9 @@ def _multi_case(world, queries, order):
         ids = G._LitIds()
         qparts.append("(qq (sel " + " ".join(G.sx_term(t, ids) for t in q["sel"]) + ") (cond " + G.sx_cond(q["cond"], ids) + "))")
     line = "(multi (order " + " ".join(f"({a} {b})" for a, b in order) + ") " + objs_part + " " + doms_part + \
-           " (queries " + " ".join(qparts) + "))"
+           " (queries " + " ".join(qparts) + ")" + (" (sharecond)" if sharecond else "") + ")"
     return Case(line, ("multi", f"queries{len(queries)}", f"evals{len(order)}"), "random",
-                {"world": world, "queries": queries, "order": order})
+                {"world": world, "queries": queries, "order": order, "sharecond": sharecond})
 
 
 def generate(rng, tier, n):
@@ -197,6 +225,8 @@ def generate(rng, tier, n):
             out.append(_sequential_sched(rng))
         elif r < 0.55:
             out.append(_warm_shared_sched(rng))
+        elif r < 0.7:
+            out.append(_shared_condition(rng))
         else:
             out.append(_multi(rng))
     return out
@@ -208,14 +238,15 @@ def revive(case: Case) -> Case:
     s = G.parse_sexp(case.line)
     if s[0] in ("sched", "sharedsub"):
         return case
-    d = {p[0]: p[1:] for p in s[1:]}
+    d = {(p[0] if isinstance(p, list) else p): (p[1:] if isinstance(p, list) else []) for p in s[1:]}
     fake = G.parse_query("(q (sel) (objs " + " ".join(_unparse(o) for o in d["objs"]) + ") (doms " +
                          " ".join(_unparse(x) for x in d["doms"]) + "))")
     world = {"objs": fake["objs"], "doms": fake["doms"]}
     queries = [{"sel": [G._p_term(t) for t in dict((p[0], p[1:]) for p in qq[1:])["sel"]],
                 "cond": G._p_cond(dict((p[0], p[1:]) for p in qq[1:])["cond"][0])} for qq in d["queries"]]
     order = [(int(a), int(b)) for a, b in d["order"]]
-    case.payload = {"world": world, "queries": queries, "order": order}
+    case.payload = {"world": world, "queries": queries, "order": order,
+                    "sharecond": any(p == ["sharecond"] for p in s[1:])}
     return case
 
 
@@ -304,9 +335,13 @@ def _run_multi(p) -> str:
     q0 = {"objs": world["objs"], "doms": world["doms"], "kinds": world.get("kinds", {})}
     objs = G.make_objects(q0)
     V = G.make_vars(q0, objs, one_shot=True)
-    built = [G.build_query({**q0, **q}, V, objs) for q in queries]
+    memo = {} if p.get("sharecond") else None
+    built = {} if memo is not None else {i: G.build_query({**q0, **q}, V, objs) for i, q in enumerate(queries)}
     outs = []
     for qi, k in order:
+        if qi not in built:
+            # shared-condition flavour: a query is built right before its first evaluation, re-using condition objects
+            built[qi] = G.build_query({**q0, **queries[qi]}, V, objs, cond_memo=memo)
         query, sel, single = built[qi]
         rows = []
         try:
